@@ -199,10 +199,13 @@ package sse
 //@ pure fok(f) = wf(&f.buf) && len(f.buf.buf) >= 2 && forall(k, 0, f.buf.count, msgok(at(&f.buf, k))) &&
 //@     (f.currentID != nil ==> allocated(f.currentID) && autoinv(&f.buf, *f.currentID))
 
+//@ pure sameseq(a, b) = len(a) == len(b) && forall(i, 0, len(a), a[i] == b[i])
+
 //@ func Message.Clone
 //@   requires e != nil
 //@   ensures is_new: result != nil && fresh(result) && allocated(result)
-//@   ensures same_fields: result.ID == e.ID && result.Type == e.Type && result.Retry == e.Retry && result.chunks == e.chunks
+//@   ensures same_fields: result.ID == e.ID && result.Type == e.Type && result.Retry == e.Retry && sameseq(result.chunks, e.chunks)
+//@   ensures shares_the_array_but_cannot_append_in_place: backing(result.chunks) == backing(e.chunks) && cap(result.chunks) == len(result.chunks)
 //@   ensures original_untouched: *e == old(*e)
 
 //@ func ensureID
@@ -213,7 +216,7 @@ package sse
 //@   ensures manual_with_id_accepted: currentID == nil && m.ID.set ==> result1 == nil && result == m
 //@   ensures auto_with_id_rejected: currentID != nil && m.ID.set ==> result1 != nil && result == nil && *currentID == old(*currentID)
 //@   ensures auto_assigns_next_id: currentID != nil && !m.ID.set ==> result1 == nil && result != nil && fresh(result) && allocated(result) && result.ID.set && result.ID.value == fmtU(old(*currentID)) && *currentID == old(*currentID) + 1
-//@   ensures auto_copies_rest: currentID != nil && !m.ID.set ==> result.Type == m.Type && result.Retry == m.Retry && result.chunks == m.chunks
+//@   ensures auto_copies_rest: currentID != nil && !m.ID.set ==> result.Type == m.Type && result.Retry == m.Retry && sameseq(result.chunks, m.chunks)
 //@   ensures message_untouched: *m == old(*m)
 
 //@ func NewFiniteReplayer
@@ -389,6 +392,7 @@ package sse
 //@   requires e != nil
 //@   modifies *e
 //@   ensures cleared: len(e.chunks) == 0 && !e.ID.set && e.ID.value == "" && !e.Type.set && e.Type.value == "" && e.Retry == 0
+//@   ensures drops_the_old_array: cap(e.chunks) == 0
 
 //@ func Message.UnmarshalText
 //@   requires e != nil
@@ -397,6 +401,8 @@ package sse
 //@   ensures type_single_line: fieldwf(e.Type)
 //@   ensures chunks_single_line: chunkswf(e)
 //@   ensures success_has_a_field: result == nil ==> len(e.chunks) > 0 || e.Type.set || e.Retry != 0 || e.ID.set
+//@   ensures never_reuses_the_old_array: cap(e.chunks) == 0 || fresh(backing(e.chunks))
+//@   invariant 0 own_array: cap(e.chunks) == 0 || fresh(backing(e.chunks))
 //@   invariant 0 fields_single_line: fieldwf(e.ID) && fieldwf(e.Type) && chunkswf(e)
 //@   invariant 0 parser_alive: s != nil && s.keepComments
 
@@ -534,11 +540,14 @@ package sse
 //@   ensures appended_chunks_single_line: forall(k, old(len(e.chunks)), len(e.chunks), singleLine(e.chunks[k].content))
 //@   ensures appended_chunks_flagged: forall(k, old(len(e.chunks)), len(e.chunks), e.chunks[k].isComment == isComment)
 //@   ensures nothing_for_empty_input: (forall(j, 0, len(chunks), chunks[j] == "")) ==> len(e.chunks) == old(len(e.chunks))
+//@   ensures in_place_within_capacity_else_a_new_array: ite(backing(e.chunks) == old(backing(e.chunks)), cap(e.chunks) == old(cap(e.chunks)), fresh(backing(e.chunks)))
 //@   invariant 0 outer_earlier_untouched: len(e.chunks) >= old(len(e.chunks)) && forall(k, 0, old(len(e.chunks)), e.chunks[k] == old(e.chunks[k]))
 //@   invariant 0 outer_single_line: forall(k, old(len(e.chunks)), len(e.chunks), singleLine(e.chunks[k].content) && e.chunks[k].isComment == isComment)
+//@   invariant 0 outer_backing: ite(backing(e.chunks) == old(backing(e.chunks)), cap(e.chunks) == old(cap(e.chunks)), fresh(backing(e.chunks)))
 //@   invariant 0 outer_empty_so_far: (forall(j, 0, ri0, chunks[j] == "")) ==> len(e.chunks) == old(len(e.chunks))
 //@   invariant 1 inner_earlier_untouched: len(e.chunks) >= old(len(e.chunks)) && forall(k, 0, old(len(e.chunks)), e.chunks[k] == old(e.chunks[k]))
 //@   invariant 1 inner_single_line: forall(k, old(len(e.chunks)), len(e.chunks), singleLine(e.chunks[k].content) && e.chunks[k].isComment == isComment)
+//@   invariant 1 inner_backing: ite(backing(e.chunks) == old(backing(e.chunks)), cap(e.chunks) == old(cap(e.chunks)), fresh(backing(e.chunks)))
 //@   invariant 1 rest_is_suffix_of_argument: suffixof(c, chunks[ri0])
 //@   invariant 1 rest_starts_a_line: len(c) < len(chunks[ri0]) && c != "" ==> isNL(chunks[ri0][len(chunks[ri0]) - len(c) - 1])
 //@   invariant 1 inner_empty_so_far: (forall(j, 0, ri0, chunks[j] == "")) && c == chunks[ri0] ==> len(e.chunks) == old(len(e.chunks))
@@ -548,12 +557,14 @@ package sse
 //@   modifies e.chunks
 //@   ensures earlier_chunks_untouched: len(e.chunks) >= old(len(e.chunks)) && forall(k, 0, old(len(e.chunks)), e.chunks[k] == old(e.chunks[k]))
 //@   ensures appended_data_single_line: forall(k, old(len(e.chunks)), len(e.chunks), singleLine(e.chunks[k].content) && !e.chunks[k].isComment)
+//@   ensures in_place_within_capacity_else_a_new_array: ite(backing(e.chunks) == old(backing(e.chunks)), cap(e.chunks) == old(cap(e.chunks)), fresh(backing(e.chunks)))
 
 //@ func Message.AppendComment
 //@   requires e != nil
 //@   modifies e.chunks
 //@   ensures earlier_chunks_untouched: len(e.chunks) >= old(len(e.chunks)) && forall(k, 0, old(len(e.chunks)), e.chunks[k] == old(e.chunks[k]))
 //@   ensures appended_comments_single_line: forall(k, old(len(e.chunks)), len(e.chunks), singleLine(e.chunks[k].content) && e.chunks[k].isComment)
+//@   ensures in_place_within_capacity_else_a_new_array: ite(backing(e.chunks) == old(backing(e.chunks)), cap(e.chunks) == old(cap(e.chunks)), fresh(backing(e.chunks)))
 
 // ---------------------------------------------------------------------------------------------------------
 // session.go / server.go: the HTTP side (C16). The response writer is an abstract callee (ghost call trace).
@@ -1009,3 +1020,19 @@ package sse
 //@   requires j != nil
 //@   modifies j.message, j.subscription, j.unsubscription, j.done, j.closed, j.subscribers, chancell(j.done)
 //@   ensures second_shutdown_is_reported_not_fatal: old(chclosed(j.done)) && j.done == old(j.done) ==> err == ErrProviderClosed
+
+// ---------------------------------------------------------------------------------------------------------
+// verif_lemmas.go: clones are independent (C19)
+// ---------------------------------------------------------------------------------------------------------
+
+//@ func lemmaCloneAppendReallocates
+//@   requires e != nil
+//@   ensures original_untouched: *e == old(*e)
+//@   ensures clone_appends_into_its_own_array: len(result.chunks) > len(e.chunks) ==> backing(result.chunks) != backing(e.chunks) && fresh(backing(result.chunks))
+//@   ensures clone_keeps_the_shared_prefix: len(result.chunks) >= len(e.chunks) && forall(k, 0, len(e.chunks), result.chunks[k] == e.chunks[k])
+
+//@ func lemmaOriginalAppendKeepsClone
+//@   requires e != nil
+//@   modifies e.chunks
+//@   ensures clone_untouched: sameseq(result.chunks, old(e.chunks)) && result.ID == old(e.ID) && result.Type == old(e.Type) && result.Retry == old(e.Retry)
+//@   ensures original_only_grows: len(e.chunks) >= old(len(e.chunks)) && forall(k, 0, old(len(e.chunks)), e.chunks[k] == old(e.chunks[k]))
